@@ -159,6 +159,18 @@ func (f *Font) makePrivateDict(idx int, defaultWidth, nominalWidth float64) cffD
 	return privateDict
 }
 
+// dictWidth returns the value of a default/nominal width after a round trip
+// through the Private DICT (see widthOperand).
+func dictWidth(w float64) float64 {
+	if _, isInt := widthOperand(w).(int32); isInt || math.IsInf(w, 0) || math.IsNaN(w) {
+		return w
+	}
+	if _, x, err := decodeFloat(encodeFloat(w)); err == nil {
+		return x
+	}
+	return w
+}
+
 // widthOperand returns the DICT operand for a default/nominal width.
 // Fractional widths must not be truncated, since the charstrings encode
 // the glyph widths relative to the exact value.
